@@ -30,6 +30,7 @@ type Ctx struct {
 
 	makeClosures map[*ssa.Function][]*ssa.MakeClosure // closure fn -> creation sites
 	cellStores   map[*ssa.Alloc][]*ssa.Store          // alloc -> every store whose address resolves to it
+	reachCache   map[*ssa.UnOp]*ssa.Store             // load of a multi-store cell -> the one store it sees
 	Files        []string
 	GOARCH       string
 	wordBits     int
@@ -189,6 +190,7 @@ func (c *Ctx) index() {
 		}
 	}
 	c.cellStores = map[*ssa.Alloc][]*ssa.Store{}
+	c.reachCache = map[*ssa.UnOp]*ssa.Store{}
 	for _, f := range c.Funcs {
 		for _, b := range f.Blocks {
 			for _, in := range b.Instrs {
@@ -267,8 +269,16 @@ func (c *Ctx) resolve(v ssa.Value, seen map[ssa.Value]bool) ssa.Value {
 				return v
 			}
 			sts := c.cellStores[a]
-			if len(sts) != 1 || c.escapesOtherwise(a) {
+			if c.escapesOtherwise(a) {
 				return v
+			}
+			if len(sts) != 1 {
+				st := c.reachingStore(a, x)
+				if st == nil {
+					return v
+				}
+				v = st.Val
+				continue
 			}
 			v = sts[0].Val
 		case *ssa.Phi:
@@ -301,6 +311,47 @@ func (c *Ctx) resolve(v ssa.Value, seen map[ssa.Value]bool) ssa.Value {
 		}
 	}
 	return v
+}
+
+// reachingStore: the load reads a local variable that is assigned more than once (all assignments in the variable's own
+// function): the one store whose value the load sees on every path, or nil.
+func (c *Ctx) reachingStore(a *ssa.Alloc, ld *ssa.UnOp) *ssa.Store {
+	if ld.X != ssa.Value(a) || ld.Parent() != a.Parent() {
+		return nil
+	}
+	if r, ok := c.reachCache[ld]; ok {
+		return r
+	}
+	c.reachCache[ld] = nil
+	sts := c.cellStores[a]
+	for _, s := range sts {
+		if s.Parent() != a.Parent() || s.Addr != ssa.Value(a) {
+			return nil
+		}
+	}
+	isStore := func(in ssa.Instruction) bool {
+		s, ok := in.(*ssa.Store)
+		return ok && s.Addr == ssa.Value(a)
+	}
+	isLoad := func(in ssa.Instruction) bool { return in == ssa.Instruction(ld) }
+	var hit *ssa.Store
+	for _, s := range sts {
+		if _, ok := CanReach(a.Parent(), s, isLoad, PathQ{BlockInstr: isStore}); ok {
+			if hit != nil {
+				return nil
+			}
+			hit = s
+		}
+	}
+	if hit == nil {
+		return nil
+	}
+	// no path from the entry to the load that avoids every store (the zero value)
+	if _, ok := CanReach(a.Parent(), nil, isLoad, PathQ{BlockInstr: isStore}); ok {
+		return nil
+	}
+	c.reachCache[ld] = hit
+	return hit
 }
 
 // escapesOtherwise: the alloc's address is used other than by loads, stores to it, closure bindings,
@@ -662,22 +713,30 @@ func CanReach(f *ssa.Function, from ssa.Instruction, goal func(ssa.Instruction) 
 		return nil, false
 	}
 	type start struct {
-		b *ssa.BasicBlock
-		i int
+		b     *ssa.BasicBlock
+		i     int
+		facts uint32
 	}
+	type vkey struct {
+		b     *ssa.BasicBlock
+		facts uint32
+	}
+	ci := corrOf(f)
+	track := len(ci.classes) > 0 && os.Getenv("MQTTCHECK_NO_CORR") == ""
 	var st start
 	if from == nil {
-		st = start{f.Blocks[0], 0}
+		st = start{f.Blocks[0], 0, 0}
 	} else {
-		st = start{from.Block(), instrIndex(from) + 1}
+		st = start{from.Block(), instrIndex(from) + 1, 0}
 	}
-	visited := map[*ssa.BasicBlock]bool{}
+	visited := map[vkey]bool{}
 	var work []start
 	work = append(work, st)
 	for len(work) > 0 {
 		w := work[len(work)-1]
 		work = work[:len(work)-1]
 		blocked := false
+		facts := w.facts
 		for i := w.i; i < len(w.b.Instrs); i++ {
 			in := w.b.Instrs[i]
 			if goal(in) {
@@ -687,9 +746,18 @@ func CanReach(f *ssa.Function, from ssa.Instruction, goal func(ssa.Instruction) 
 				blocked = true
 				break
 			}
+			if track && facts != 0 {
+				if m, ok := ci.kills[in]; ok {
+					facts = corrClear(facts, m)
+				}
+			}
 		}
 		if blocked {
 			continue
+		}
+		mem, isMem := corrMember{}, false
+		if track {
+			mem, isMem = ci.members[w.b]
 		}
 		for k, s := range w.b.Succs {
 			if edgeInfeasible(w.b, k) {
@@ -698,9 +766,24 @@ func CanReach(f *ssa.Function, from ssa.Instruction, goal func(ssa.Instruction) 
 			if q.BlockEdge != nil && q.BlockEdge(w.b, k) {
 				continue
 			}
-			if !visited[s] {
-				visited[s] = true
-				work = append(work, start{s, 0})
+			nf := facts
+			if isMem && len(w.b.Succs) == 2 {
+				val := (k == 0) == mem.pol // truth of the class condition on this edge
+				switch corrGet(facts, mem.class) {
+				case 1:
+					if val {
+						continue // contradicts what an earlier test on this path established
+					}
+				case 2:
+					if !val {
+						continue
+					}
+				}
+				nf = corrSet(facts, mem.class, val)
+			}
+			if !visited[vkey{s, nf}] {
+				visited[vkey{s, nf}] = true
+				work = append(work, start{s, 0, nf})
 			}
 		}
 	}
